@@ -59,6 +59,7 @@ class Engine:
         self.__dict__.pop("_intcache", None)
         self.__dict__.pop("_trig", None)
         self.__dict__.pop("_atan", None)
+        self.__dict__.pop("_sqrtcache", None)
 
     def hyps(self):
         return list(self.pc) + list(self.assumptions)
@@ -567,8 +568,13 @@ class _MathShim:
             eng.shims_hit.add("math.sqrt")
             if not eng.decide(x.t >= 0):
                 raise ValueError("math domain error")
+            cache = eng.__dict__.setdefault("_sqrtcache", {})
+            key = x.t.get_id()
+            if key in cache and cache[key][0].eq(x.t):
+                return cache[key][1]  # the square root is a function: same term, same value
             s = eng.fresh_real("sqrt", "F")
             eng.assume(z3.And(s.t >= 0, s.t * s.t == x.t))
+            cache[key] = (x.t, s)
             return s
         return math.sqrt(x)
 
@@ -642,6 +648,56 @@ def z3val_to_fraction(v):
         a = v.approx(30)
         return fractions.Fraction(a.numerator_as_long(), a.denominator_as_long()), False
     raise ValueError(f"cannot convert {v}")
+
+
+_LIN = {}
+
+
+def is_linear(t):
+    """no product of two non-constant factors, no division by a non-constant, no quantifier/uninterpreted function"""
+    k = t.get_id()
+    if k in _LIN:
+        return _LIN[k]
+    ok = True
+    stack = [t]
+    seen = set()
+    while stack and ok:
+        u = stack.pop()
+        i = u.get_id()
+        if i in seen:
+            continue
+        seen.add(i)
+        if z3.is_quantifier(u):
+            ok = False
+            break
+        if z3.is_app(u):
+            kind = u.decl().kind()
+            ch = u.children()
+            if kind == z3.Z3_OP_MUL and sum(1 for c in ch if not z3.is_rational_value(c) and not z3.is_int_value(c)) > 1:
+                ok = False
+            elif kind in (z3.Z3_OP_DIV, z3.Z3_OP_IDIV) and not (z3.is_rational_value(ch[1]) or z3.is_int_value(ch[1])):
+                ok = False
+            elif kind == z3.Z3_OP_POWER or (kind == z3.Z3_OP_UNINTERPRETED and ch):
+                ok = False
+            stack.extend(ch)
+    if len(_LIN) > 200000:
+        _LIN.clear()
+    _LIN[k] = ok
+    return ok
+
+
+def check_staged(hyps, goal, timeout_ms=20000):
+    """as check(); when the goal is linear, first try with the linear hypotheses only (proving from fewer
+    hypotheses is sound; nonlinear side hypotheses make z3 slow on goals that do not need them)."""
+    if hyps and is_linear(goal):
+        lin = [h for h in hyps if is_linear(h)]
+        if len(lin) < len(hyps):
+            st, model, dt = check(lin, goal, min(timeout_ms, 5000))
+            if st == "unsat":
+                return st, model, dt
+            st2, model2, dt2 = check(hyps, goal, timeout_ms)
+            return st2, model2, dt + dt2
+    return check(hyps, goal, timeout_ms)
 
 
 def check(hyps, goal, timeout_ms=20000):
